@@ -367,6 +367,38 @@ func c09Run(c *mon.Ctx) {
 			c.Sample(c09Case{A: na.Describe(), B: nb.Describe()})
 		}
 	}
+	// a SimplePoint answers exactly as the equivalent Point, also against a
+	// Circle and right at its rim (no tolerance: both must take the same path)
+	np := c.Pick(200000, 4000000)
+	for i := 0; i < np; i++ {
+		if !c.Mine(i) {
+			continue
+		}
+		r := c.SubRng("rim", i)
+		cen := geometry.Point{X: float64(r.Intn(41) - 20), Y: float64(r.Intn(81) - 40)}
+		m := []float64{500, 30000, 111000, 250000}[r.Intn(4)]
+		ratio := []float64{0.5, 0.99, 0.9995, 0.99999, 1, 1.00001, 1.0005, 1.01, 2}[r.Intn(9)]
+		brg := float64(r.Intn(64))*360/64 + []float64{0, 360.0 / 128, r.Float64() * 360 / 64}[r.Intn(3)]
+		// a point at the given fraction of the radius (flat-earth offset is good enough to land near the rim)
+		dy := m * ratio / 111194.9 * math.Cos(brg*math.Pi/180)
+		dx := m * ratio / 111194.9 * math.Sin(brg*math.Pi/180) / math.Cos(cen.Y*math.Pi/180)
+		p := geometry.Point{X: cen.X + dx, Y: cen.Y + dy}
+		c.SetCase(func() interface{} {
+			return c09Case{A: nCircle(cen, m, 64).Describe(), B: nPoint(p).Describe(), Law: "SimplePoint vs Point"}
+		})
+		c.Try(func() {
+			circ := geojson.NewCircle(cen, m, 64)
+			pt, sp := geojson.NewPoint(p), geojson.NewSimplePoint(p)
+			c.Eval()
+			c.Count("circle_rim_point_pairs")
+			a, b := evalTri(circ, pt), evalTri(circ, sp)
+			a2, b2 := evalTri(pt, circ), evalTri(sp, circ)
+			if a != b || a2 != b2 {
+				c.Violation("transparency SimplePoint near a circle's rim", fmt.Sprintf("Circle vs Point %+v / %+v, Circle vs SimplePoint %+v / %+v", a, a2, b, b2),
+					c09Case{A: nCircle(cen, m, 64).Describe(), B: nPoint(p).Describe(), Law: "SimplePoint answers as the equivalent Point"})
+			}
+		})
+	}
 	// leaf objects answer as the geometry-level predicates on their base geometry
 	m := c.Pick(600000, 10000000)
 	for i := 0; i < m; i++ {
@@ -389,7 +421,7 @@ func c09Run(c *mon.Ctx) {
 }
 
 func init() {
-	must := []string{"leaf_vs_geometry", "parsed_pairs", "transparency Feature(A)", "transparency five-point Polygon", "transparency SimplePoint"}
+	must := []string{"circle_rim_point_pairs", "leaf_vs_geometry", "parsed_pairs", "transparency Feature(A)", "transparency five-point Polygon", "transparency SimplePoint"}
 	for _, k := range kinds12 {
 		must = append(must, "self "+k)
 	}
